@@ -118,3 +118,24 @@ def RecurrentSubGraph(  # noqa:  N802,RUF100
                         Вызывается с помощью self.next_iteration().
     """
     return t.cast(t.Any, RecurrentSubGraphMark(start_node, dest_node, max_iterations))
+
+
+def get_annotations(method: t.Callable) -> t.Dict[str, t.Any]:
+    """
+    Annotations of a run method. In a module with `from __future__ import annotations` they are kept as strings:
+    the marks have to be evaluated in the namespace of the function, otherwise every dependency would be ignored.
+    """
+
+    function = getattr(method, '__func__', method)
+    annotations = dict(getattr(function, '__annotations__', None) or {})
+    namespace = getattr(function, '__globals__', {})
+
+    for name, annotation in annotations.items():
+        if isinstance(annotation, str):
+            try:
+                annotations[name] = eval(annotation, namespace)  # noqa: S307, PGH001
+            except Exception:  # noqa: BLE001, S112
+                continue
+
+    return annotations
+
